@@ -2,6 +2,7 @@ package jsonapi
 
 import (
 	"encoding/json"
+	"reflect"
 	"sort"
 	"time"
 )
@@ -105,6 +106,14 @@ func (f *Filter) IsAllowed(res Resource) bool {
 }
 
 func checkVal(op string, rval, cval any) bool {
+	// A Wrapper returns an untyped nil for a nil pointer. It is given the
+	// type of the value it is compared with, like a SoftResource does.
+	if rval == nil && cval != nil {
+		if v := reflect.ValueOf(cval); v.Kind() == reflect.Ptr {
+			rval = reflect.Zero(v.Type()).Interface()
+		}
+	}
+
 	switch rval := rval.(type) {
 	case string:
 		return checkStr(op, rval, cval.(string))
